@@ -218,6 +218,12 @@ func (r *runner) runCase(cs *Case) (key, expected, observed string, herr error) 
 		}
 	} else if got == es {
 		st.add("exact_model_agreement", 1)
+	} else if df {
+		// second clause of the statement: for a dot-free path the result IS the base joined with
+		// the path, i.e. the joined path in its clean form (what filepath.Join yields) - the same
+		// location spelt with a trailing slash, "//", "/." or "x/.." left in is not that
+		return "dotfree-unclean:" + id, fmt.Sprintf("%q exactly (the cleaned base joined with the segments of the dot-free path)", es),
+			fmt.Sprintf("%q (the same location, but not the joined path: the base or the path went in uncleaned)", got), nil
 	} else {
 		st.add("agreement_after_normalisation_only", 1)
 	}
@@ -232,14 +238,15 @@ type mon struct{}
 func (mon) Name() string { return "urlpath" }
 
 func (mon) Level(string) (string, string) {
-	return "exploration", "exhaustive: every string up to the stated length over {'/','.','a','\\'} x 12 spellings of the base (lexical model) and x 5 absolute + 7 relative (after chdir) spellings of a base inside a temporary tree with secrets outside (kernel-judged: inode and content reached by stat/open of the result); plus seeded random longer paths (segments '..', '...', '. .', '%2e%2e', backslash forms, SECRET, arbitrary NUL-free bytes) and random bases. distinct_nontrivial = distinct URL paths whose evaluation discards at least one '..' at the root of the URL path, i.e. that try to climb out of the base (lexical shards), and distinct (base, path) pairs of that kind (canary shards). History shards: sequences of calls in one process, each call judged by the same oracles - for bases with '..' inside and every textual cut base = A + rest at a '/', the two different questions (base, p) and (A, rest+p) with the same concatenation, back to back (each twice), in both orders (separate processes) and in batches of 40 / 250 such groups (first calls of all groups, then the counterpart calls), lexically and inside the canary tree; plus random segment strings all of whose cuts are asked in random order; distinct_nontrivial there = distinct colliding pairs. Retained results: in every shard the results of the last 64 calls are kept exactly as returned next to a copy taken at return; after every call the 4 most recent, every 16 calls and at the end all kept strings must still equal their copy (a changed one is judged again for containment); plus concurrent scenarios (4 / 16 goroutines with bases of their own calling at once, each checking its own 32 kept results after each of its calls). Byte sweep: every byte 0x01..0xff and 9 multi-byte runes in the first, the last and a middle position of 21 short climbing path shapes x 12 bases lexically and x the 12 canary spellings. The thorough tier adds, with the same oracles: the first alphabet exhaustively to length 11 (12 bases) and 12 (4 bases) lexically and to length 10 in the canary tree; a second alphabet of 12 symbols ('/', '.', 'a', '\\', '%', '%2e', ' ', ':', '~', 0x01, a two-byte rune, a lone 0xff) to length 6 (12 bases, canary to 5) and 7 (4 bases); a third alphabet whose symbols are whole segments ('/', '..', '.', 'a', '//', '/../', '\\', 'SECRET') to length 7 (canary 6); 94 further spellings of the base (relative, '..' inside, trailing slashes, blanks and dots, symlink-like names, backslashes, Unicode and non-UTF-8 bytes, 3-5 KiB long) under the first alphabet to length 9 (long ones 7), the other alphabets shorter, and under random paths; 23 further spellings of the canary bases to length 8; long paths (thousands of segments, '..' runs up to 6000 deep, single segments of 4-16 KiB, random NUL-free byte strings up to 8 KiB) lexically and in the canary tree; histories with paths to length 6, batches of 1000 groups, seeded shuffles of 300 groups, the further bases with all their cuts, and 4 M random cut families; concurrent scenarios with 2..64 goroutines at GOMAXPROCS 2, 4 and 16, and with 4 / 16 goroutines in a -race build made by the shard itself (a race report with a glb frame or a runtime crash is a violation)"
+	return "exploration", "exhaustive: every string up to the stated length over {'/','.','a','\\'} x 12 spellings of the base (lexical model) and x 5 absolute + 7 relative (after chdir) spellings of a base inside a temporary tree with secrets outside (kernel-judged: inode and content reached by stat/open of the result); plus seeded random longer paths (segments '..', '...', '. .', '%2e%2e', backslash forms, SECRET, arbitrary NUL-free bytes) and random bases. distinct_nontrivial = distinct URL paths whose evaluation discards at least one '..' at the root of the URL path, i.e. that try to climb out of the base (lexical shards), and distinct (base, path) pairs of that kind (canary shards). History shards: sequences of calls in one process, each call judged by the same oracles - for bases with '..' inside and every textual cut base = A + rest at a '/', the two different questions (base, p) and (A, rest+p) with the same concatenation, back to back (each twice), in both orders (separate processes) and in batches of 40 / 250 such groups (first calls of all groups, then the counterpart calls), lexically and inside the canary tree; plus random segment strings all of whose cuts are asked in random order; distinct_nontrivial there = distinct colliding pairs. Retained results: in every shard the results of the last 64 calls are kept exactly as returned next to a copy taken at return; after every call the 4 most recent, every 16 calls and at the end all kept strings must still equal their copy (a changed one is judged again for containment); plus concurrent scenarios (4 / 16 goroutines with bases of their own calling at once, each checking its own 32 kept results after each of its calls). Byte sweep: every byte 0x01..0xff and 9 multi-byte runes in the first, the last and a middle position of 21 short climbing path shapes x 12 bases lexically and x the 12 canary spellings. Trivial paths ('', '/', '//', '///', '.', '/.', './', '/./', 'a', '/a', '/a/', 'a/', 'a//a') x 34 bases that are not in clean form plus the 94 further spellings, and x all 35 canary spellings: for the dot-free ones the result must be the cleaned join exactly. The thorough tier adds, with the same oracles: the first alphabet exhaustively to length 11 (12 bases) and 12 (4 bases) lexically and to length 10 in the canary tree; a second alphabet of 12 symbols ('/', '.', 'a', '\\', '%', '%2e', ' ', ':', '~', 0x01, a two-byte rune, a lone 0xff) to length 6 (12 bases, canary to 5) and 7 (4 bases); a third alphabet whose symbols are whole segments ('/', '..', '.', 'a', '//', '/../', '\\', 'SECRET') to length 7 (canary 6); 94 further spellings of the base (relative, '..' inside, trailing slashes, blanks and dots, symlink-like names, backslashes, Unicode and non-UTF-8 bytes, 3-5 KiB long) under the first alphabet to length 9 (long ones 7), the other alphabets shorter, and under random paths; 23 further spellings of the canary bases to length 8; long paths (thousands of segments, '..' runs up to 6000 deep, single segments of 4-16 KiB, random NUL-free byte strings up to 8 KiB) lexically and in the canary tree; histories with paths to length 6, batches of 1000 groups, seeded shuffles of 300 groups, the further bases with all their cuts, and 4 M random cut families; concurrent scenarios with 2..64 goroutines at GOMAXPROCS 2, 4 and 16, and with 4 / 16 goroutines in a -race build made by the shard itself (a race report with a glb frame or a runtime crash is a violation)"
 }
 
 func (mon) Assumptions(string) []string {
 	return []string{
 		"POSIX: '/' is the only separator, a backslash is an ordinary file-name byte",
 		"a dot segment is a segment equal to '.' or '..'; '...', '. .', '%2e%2e' are ordinary names (no percent-decoding is part of ResolveUrlPath)",
-		"'lies beneath the base' and 'base joined with the path' are judged after lexical normalisation of the returned path by the monitor's own segment stack (no path.Clean / filepath.Clean / filepath.Join in the model): a result that is contained but not in canonical form is counted, not reported",
+		"'lies beneath the base' is judged after lexical normalisation of the returned path by the monitor's own segment stack (no path.Clean / filepath.Clean / filepath.Join in the model)",
+		"'the base joined with the path' (dot-free paths) is the joined path in clean form, as filepath.Join yields it: the result must equal the model's string exactly (cleaned base + '/' + segments); the same location spelt uncleaned (trailing slash, '//', '/.', 'x/..' left in) is reported as dotfree-unclean. For paths with dot segments a contained result in non-canonical form is only counted",
 		"for URL paths containing dot segments the statement prescribes containment only; a contained result that differs from the segment-stack model is counted (dotted_differs_from_model) and noted, not reported as a violation",
 		"a returned path is a value: the string handed to the caller must keep reading the same (and stay inside its base) while later calls are made, in the same or in other goroutines",
 		"empty base excluded; no symbolic links inside the canary tree",
@@ -249,7 +256,7 @@ func (mon) Assumptions(string) []string {
 
 func (mon) Finish(prop, tier string, m *drv.Merged) []string {
 	var out []string
-	need := []string{"fs_selftest_ok", "fs_hit_inside_below_base", "fs_read_inside", "fs_dotfree_entry_checked", "climb_attempts", "dotfree_paths", "fs_rel_cases", "fs_abs_cases", "exact_model_agreement", "hist_calls", "hist_colliding_pairs", "hist_fs_calls", "retained_checks", "conc_calls", "conc_retained_checks", "byte_sweep_cases"}
+	need := []string{"fs_selftest_ok", "fs_hit_inside_below_base", "fs_read_inside", "fs_dotfree_entry_checked", "climb_attempts", "dotfree_paths", "fs_rel_cases", "fs_abs_cases", "exact_model_agreement", "hist_calls", "hist_colliding_pairs", "hist_fs_calls", "retained_checks", "conc_calls", "conc_retained_checks", "byte_sweep_cases", "trivial_dotfree_on_unclean_base"}
 	if tier == "thorough" {
 		need = append(need, "alphabet2_cases", "alphabet3_cases", "extra_bases_cases", "extra_canary_bases_cases", "long_path_cases",
 			"hist_shuffled_histories", "hist_wide_pairs", "race_binary_built", "race_conc_calls")
@@ -341,6 +348,9 @@ func (mon) Plan(prop, tier string, seed int64) []drv.Shard {
 	add("byte-sweep-lex", false, shardArgs{Kind: "byte-sweep"})
 	add("byte-sweep-fs-abs", false, shardArgs{Kind: "byte-sweep-fs"})
 	add("byte-sweep-fs-rel", true, shardArgs{Kind: "byte-sweep-fs", Rel: true})
+	// trivial paths ("", "/", "//", ...) against bases that are not in clean form (the canary
+	// spellings of that kind run inside the byte-sweep-fs shards)
+	add("trivial-unclean-bases", false, shardArgs{Kind: "trivial"})
 	if tier == "thorough" {
 		out = append(out, planDeep(add)...)
 	}
@@ -803,6 +813,20 @@ func (mn mon) Run(sh drv.Shard, c *drv.Ctx) {
 				break
 			}
 		}
+	case "trivial":
+		bases := append(append([]string(nil), uncleanBases...), xBasesShort...)
+		for _, b := range bases {
+			for _, p := range trivialPaths {
+				st.add("trivial_path_cases", 1)
+				if dotFree(p) && normalize(b).String() != b {
+					st.add("trivial_dotfree_on_unclean_base", 1)
+					c.DistinctStr("trivial\x00" + b + "\x00" + p)
+				}
+				if !exec(Case{Mode: "lex", Base: b, Path: []byte(p)}) {
+					return
+				}
+			}
+		}
 	case "byte-sweep", "byte-sweep-fs":
 		for _, p := range sweepPaths() {
 			_, climbs := urlSegments(string(p))
@@ -831,6 +855,22 @@ func (mn mon) Run(sh drv.Shard, c *drv.Ctx) {
 			}
 			if !ok {
 				break
+			}
+		}
+		if a.Kind == "byte-sweep-fs" {
+			// trivial paths against every spelling of the canary bases, clean or not
+			xb := fsAbsBasesX
+			if a.Rel {
+				xb = fsRelBasesX
+			}
+			for _, b := range append(append([]fsBase(nil), fsb...), xb...) {
+				for _, p := range trivialPaths {
+					st.add("trivial_path_cases", 1)
+					st.add(fsKey, 1)
+					if !exec(Case{Mode: "fs", Base: b.Base, Path: []byte(p), Dir: b.Dir, Chdir: b.Chdir}) {
+						return
+					}
+				}
 			}
 		}
 	case "conc-race":
